@@ -59,6 +59,7 @@ func runC04(rc *RunCtx) {
 				ct.TokenPair{RemoteDomain: 2, RemoteToken: Token(1), LocalToken: "UUSDC"},
 				ct.TokenPair{RemoteDomain: 3, RemoteToken: Token(0), LocalToken: "ueure"},
 				ct.TokenPair{RemoteDomain: 3, RemoteToken: Token(1), LocalToken: ""}, // a pair imported without a local token
+				ct.TokenPair{RemoteDomain: 2, RemoteToken: Token(5)[12:], LocalToken: "uusdc"}, // keyed by a bare 20-byte token: another key than the padded word
 				ct.TokenPair{RemoteDomain: 5, RemoteToken: Token(1), LocalToken: c04Voucher},
 				ct.TokenPair{RemoteDomain: 5, RemoteToken: Token(2), LocalToken: "factory/Noble1Creator/UTOKEN"})
 			gs.PerMessageBurnLimitList = append(gs.PerMessageBurnLimitList, ct.PerMessageBurnLimit{Denom: "uusdc", Amount: sdkInt(3)}) // outbound limit only
@@ -84,7 +85,7 @@ func runC04(rc *RunCtx) {
 						tok int
 						sp  string
 					}{{0, 0, "uusdc"}, {2, 0, "uUSDC"}, {2, 1, "UUSDC"}, {3, 0, "ueure"}, {3, 1, "(empty,genesis)"}, {5, 0, "(empty,linked)"},
-						{5, 1, "ibc-voucher(genesis)"}, {5, 2, "factory-denom(genesis)"}, {5, 3, "ibc-voucher(linked)"}} {
+						{2, 5, "padded-word-of-a-20-byte-key(unlinked)"}, {5, 1, "ibc-voucher(genesis)"}, {5, 2, "factory-denom(genesis)"}, {5, 3, "ibc-voucher(linked)"}} {
 						nonce++
 						submitter := Acct((ai + ci + di) % NAccounts)
 						recip := c04Recipient(cls, ai+ci+rep)
@@ -282,6 +283,14 @@ func c08Deposit(e *Engine, mask uint32, withCaller bool, amt *big.Int, v int, de
 	}
 	if mask&(PFrom|P8P9Deps) == 0 && v%5 == 3 {
 		from = LongAcct() // a depositor whose address is 32 bytes long
+	}
+	if mask&P4MintRecipient == 0 && v%6 == 4 { // non-zero, though only outside the low 20 bytes
+		mr = make([]byte, 32)
+		mr[v%12] = byte(1 + v)
+	}
+	if mask&P10Caller == 0 && v%6 == 2 {
+		caller = make([]byte, 32)
+		caller[(v+3)%12] = byte(7 + v)
 	}
 	if mask&(PFrom|P8P9Deps) == 0 && v%7 == 5 {
 		from = strings.ToUpper(from) // the all-upper-case bech32 spelling names the same account
